@@ -743,10 +743,14 @@ func ruleQueryHash(r *Run) {
 	n := 0
 	for _, fn := range r.P.Funcs {
 		var qsVal ssa.Value
+		var qsStore *ssa.Store
+		nQS := 0
 		for _, ins := range allInstrs(fn) {
 			if st, ok := ins.(*ssa.Store); ok {
 				if fa, ok := st.Addr.(*ssa.FieldAddr); ok && fieldOf(fa) != nil && fieldOf(fa).Name() == "QueryString" && namedOf(fa.X.Type()) == plannerPkg+".QueryPlanStep" {
 					qsVal = st.Val
+					qsStore = st
+					nQS++
 				}
 			}
 		}
@@ -759,6 +763,9 @@ func ruleQueryHash(r *Run) {
 			if !ok || fieldOf(fa) == nil || fieldOf(fa).Name() != "QueryStringHash" || namedOf(fa.X.Type()) != plannerPkg+".QueryPlanStep" {
 				continue
 			}
+			if nQS != 1 {
+				qsStore = nil // the field is read back only when it is assigned exactly once
+			}
 			if al, isAl := fa.X.(*ssa.Alloc); isAl && al.Parent() == fn {
 				if _, isConst := st.Val.(*ssa.Const); isConst {
 					continue // zero value in a literal
@@ -767,7 +774,7 @@ func ruleQueryHash(r *Run) {
 			n++
 			good := false
 			if c, ok := st.Val.(*ssa.Call); ok && strings.HasPrefix(calleeName(&c.Call), "crypto/sha") && len(c.Call.Args) == 1 && qsVal != nil {
-				if cv, ok := c.Call.Args[0].(*ssa.Convert); ok && cv.X == qsVal {
+				if cv, ok := c.Call.Args[0].(*ssa.Convert); ok && (cv.X == qsVal || loadsStoredField(cv.X, fa.X, "QueryString", qsStore)) {
 					good = true
 				}
 			}
@@ -791,4 +798,19 @@ func ruleQueryHash(r *Run) {
 		}
 	}
 	r.AtLeast(rule, "assignments of QueryStringHash", n, 1)
+}
+
+// loadsStoredField: v is a load of field `field` of the object obj, read after the (only)
+// store st to that field of the same object — the value read is the value stored.
+func loadsStoredField(v, obj ssa.Value, field string, st *ssa.Store) bool {
+	ld, ok := v.(*ssa.UnOp)
+	if !ok || ld.Op != token.MUL || st == nil {
+		return false
+	}
+	fa, ok := ld.X.(*ssa.FieldAddr)
+	if !ok || fieldOf(fa) == nil || fieldOf(fa).Name() != field || fa.X != obj {
+		return false
+	}
+	sfa, ok := st.Addr.(*ssa.FieldAddr)
+	return ok && sfa.X == obj && instrDominates(st, ld)
 }
